@@ -11,4 +11,8 @@ r = subprocess.run([sys.executable, os.path.join(HERE, 'gen_iso_tables.py'), '--
 print(r.stdout.strip())
 if r.returncode != 0:
     ok = False
+r = subprocess.run([sys.executable, os.path.join(HERE, 'model_facts.py')], capture_output=True, text=True)
+print(r.stdout.strip()[-300:])
+if r.returncode != 0:
+    print('model facts checker failed (checks that need it will report UNDECIDED)')
 sys.exit(0 if ok else 1)
